@@ -3,7 +3,7 @@
    text, format table and configuration; idempotence is refuted by the recorded finding and holds
    on the sample. *)
 From HL Require Import Lib.Bytes Model.Ast Lib.Dec Model.Lexer Model.Parser Model.NumberFormat Model.Formatter
-  Spec.FormatSpec Spec.FormatRun Proofs.FormatterProofs.
+  Spec.FormatSpec Spec.FormatRun Proofs.FormatterProofs Proofs.ParserProofs Proofs.ParserLines Proofs.FormatPipeline.
 Open Scope Z_scope.
 
 (* first sentence: every range inside the document, start <= end, no two edits overlap *)
@@ -12,6 +12,14 @@ Theorem C05_edits_wf : forall j errs content fm o,
   edits_wf (split_lf content) (server_format j errs content (Some fm) o) = true.
 Proof. exact server_format_wf. Qed.
 Print Assumptions C05_edits_wf.
+
+(* the same on the whole pipeline, with no premise: for EVERY byte string, format table and
+   configuration the edit list computed from the parser's journal is well-formed *)
+Theorem C05_edits_wf_every_document : forall input fmts o,
+  exists j errs, parse input = Some (j, errs) /\
+                 edits_wf (split_lf input) (server_format j errs input fmts o) = true.
+Proof. exact pipeline_edits_wf. Qed.
+Print Assumptions C05_edits_wf_every_document.
 
 (* third sentence: the amount of every posting without status mark starts in ONE column, the
    same for the whole document ... *)
